@@ -88,7 +88,7 @@ def rand_task(rng, depth, maxdepth, fan, budget):
                             c["kids"].append(rand_task(rng, depth + 1, maxdepth, fan, budget))
             ctxs.append(c)
         frames.append({"ctxs": ctxs})
-    task = {"frames": frames, "block": "body", "how": rng.choice(["sleep", "event", "sleep", "event", "thread"]), "closed": 0}
+    task = {"frames": frames, "block": "body", "how": rng.choice(["sleep", "event", "sleep", "event", "thread", "poll"]), "closed": 0}
     last = frames[-1]["ctxs"]
     if last and last[-1]["t"] == "n" and last[-1]["kids"] and rng.random() < 0.6:
         task["block"] = "aexit"
@@ -114,7 +114,8 @@ def systematic(stride=1, offset=0):
     grandchild = {"frames": [{"ctxs": [{"t": "n", "kids": [leaf("event")], "end": "tryfin"}]}],
                   "block": "aexit", "how": "sleep", "closed": 0}
     kid_sets = [[], [leaf()], [leaf("event", 2), grandchild], [leaf(), leaf("event"), leaf("sleep", 2)],
-                [leaf("thread"), leaf("thread", 2), leaf("thread")]]
+                [leaf("thread"), leaf("thread", 2), leaf("thread")],
+                [leaf("poll"), leaf("sleep"), leaf("poll", 2)]]
     for layout in LAYOUTS:
         for end in ENDS + ("ifret1",):
             for block in (("body", "sleep", 0), ("body", "event", 0), ("aexit", "sleep", 0), ("aexit", "sleep", 1),
@@ -231,6 +232,12 @@ def specials():
     yield {"kind": "tree", "rc": True, "root": {"frames": [{"ctxs": [
         {"t": "n", "end": "plain", "kids": [leaf("thread"), leaf("thread"), leaf("thread", 2), leaf("thread")]}]}],
         "block": "body", "how": "sleep", "closed": 0}}
+    # children that are runnable at a checkpoint (polling trio.lowlevel.checkpoint()): parked in the
+    # trap cancel_shielded_checkpoint, which must be hidden and pruned like wait_task_rescheduled
+    yield {"kind": "tree", "rc": True, "root": {"frames": [{"ctxs": [
+        {"t": "n", "end": "plain", "kids": [leaf("poll"), leaf("sleep"), leaf("poll", 2)]}]}],
+        "block": "body", "how": "sleep", "closed": 0}}
+    yield {"kind": "tree", "rc": True, "root": leaf("poll")}
     for hops in ("THTH", "THTHT", "TSTS"):
         n = len(hops) + 1
         yield {"kind": "chain", "rc": True, "start": "task", "hops": hops, "end": "park", "nurs": [0] * n,
@@ -368,6 +375,8 @@ def _count(task):
     n, aexit, ends = 1, int(task["block"] == "aexit"), set()
     if task["block"] == "body" and task["how"] == "thread":
         ends.add("parked in to_thread")
+    if task["block"] == "body" and task["how"] == "poll":
+        ends.add("runnable at a checkpoint")
     for fr in task["frames"]:
         for c in fr["ctxs"]:
             if c["t"] == "n":
